@@ -169,14 +169,14 @@ pub fn run(ck: &mut Check) {
          G2: lexicographical_topological_sort on all DAGs up to a node bound x all (power level, timestamp, id order) assignments, against 'always the minimum ready node'. Non-trivial = conflicted set non-empty and (a conflicted power event or non-empty auth difference outside it).",
     );
     ck.assume("instances where 'events of the auth chain inside the full conflicted set' differs between walking the whole chain and walking only through conflicted events (Synapse's reading) are counted, not asserted");
-    let n = ck.n(40_000, 1_500_000);
+    let n = ck.n(100_000, 1_500_000);
     ck.prop("room_histories", n, || history(40), oracle);
     for (cls, min) in [("instance", 30000), ("conflicted", 20000), ("conflicted_power_event", 10000), ("auth_diff_not_in_conflicted", 5000), ("event_rejected_in_iterative_auth", 2000), ("no_pl_ancestor_event_in_mainline_phase", 1000), ("tie_pl_ts", 5000), ("ban_vs_join_race", 2000), ("history_with_merge_event", 2000)] {
         ck.floor("room_histories", cls, min);
     }
     let max_n = if ck.thorough() { 4 } else { 3 };
     ck.exhaustive("topological_sort_small_dags", true, move |s, n| sort_space(max_n, s, n), sort_oracle);
-    let n = ck.n(20_000, 1_000_000);
+    let n = ck.n(60_000, 1_000_000);
     ck.prop(
         "topological_sort_random_dags",
         n,
